@@ -3,6 +3,8 @@ sys.path.insert(0, os.path.join(os.path.dirname(os.path.abspath(__file__)), '..'
 sys.path.insert(0, os.path.dirname(os.path.abspath(__file__)))
 import vlib, flow
 import pmm_common as pc
+import gen_trans
+gen_trans.register('pmm_boot.json')   # Go -> Gallina translation of BootMemAllocator.init/AllocFrame (Gen/Trans_pmm_boot.v, used by Pmm/BootTrans.v)
 
 H = os.path.join(vlib.ROOT, 'harness/kernel/mm/pmm')
 vlib.register_const_dump('kernel', 'mm/pmm', os.path.join(H, 'zz_verif_consts_test.go'))
@@ -10,7 +12,7 @@ vlib.register_const_dump('kernel', 'mm/pmm', os.path.join(H, 'zz_verif_consts_te
 
 class C02(flow.Spec):
     prop = 'C02'
-    props_files = ['theories/Props/C02.v', 'theories/Props/C02_examples.v']
+    props_files = ['theories/Props/C02.v', 'theories/Props/C02_examples.v', 'theories/Props/C02_trans.v', 'theories/Props/C02_trans_examples.v']
     model_targets = ['theories/Pmm/Boot.vo']
     pkg = 'mm/pmm'
     harness = [os.path.join(H, 'zz_verif_c02_test.go'), os.path.join(H, 'zz_verif_pmm_util_test.go')]
@@ -23,7 +25,11 @@ class C02(flow.Spec):
             'non-trivial = at least two frames handed out; distinct = distinct case vectors')
     assumptions = ['memory map delivered through the real multiboot.VisitMemRegions (type normalisation included); region addr+len '
                    'below 2^64-4096 (x86-64 physical addresses are below 2^52)',
-                   'the hand-written Gallina model of AllocFrame is tied to the Go code by differential testing only']
+                   'the hand-written Gallina model of init/AllocFrame is proved equal to the Gallina term gen/gotrans regenerates from '
+                   'bootmem_allocator.go on every run (Props/C02_trans.v), for every allocator state and every region list; trusted for that tie: '
+                   'the translator and Lib/GoOps.v + Lib/GoVisit.v (meaning of the operators and of a closure passed to a visitor); the contract of '
+                   'multiboot.VisitMemRegions itself (one call per entry in order, stop on false, type normalisation) is NOT part of the tie - it is '
+                   'C10\'s subject and is exercised here by the correspondence run through the real function']
 
     def gen_cases(self, rng, tier):
         n = {'quick': 900, 'thorough': 25000, 'search': 4000}[tier]
